@@ -70,7 +70,7 @@ def build_exec(pid, ex, san=None, fuzz=False):
         obj = os.path.join(objdir, "repo", rel[:-2] + ".o")
         jobs.append((src, obj, flags))
         objs.append(obj)
-    for rel in [ex["harness"]] + ex.get("engine", []) + ["engine/vp_util.c"]:
+    for rel in [ex["harness"]] + ex.get("engine", []) + ["engine/vp_util.c", "engine/verif_rt.c"]:
         src = os.path.join(VERIF, rel)
         obj = os.path.join(objdir, "verif", rel[:-2] + ".o")
         jobs.append((src, obj, flags))
